@@ -28,7 +28,9 @@ class NumberType(Type):
             # if other node datatype is unknown
             if self.dtype in [int,float]:
                 other.convert(self.unit)
-            other.value = self.dtype(other.value)
+                other.value = float(other.value)   # a literal like 8.0 or 3.5 can be compared with an integer node
+            else:
+                other.value = self.dtype(other.value)
         elif type(self)==type(other):
             # if both datatypes are known
             if self.dtype in [int,float]:
